@@ -128,6 +128,23 @@ def run(ctx):
             if not (np.array_equal(kt, k0) and np.array_equal(Tt, T0)):
                 viol(f"{name}/caller-arrays", f"{name}: the caller's k/T arrays were modified")
                 kt[:] = k0; Tt[:] = T0
+        # a table that starts well inside the suppressed regime (T_table[0] ~ 0.8, not 1): a request reaching below it is extended with
+        # the first tabulated value, continuously, and the table is still reproduced at its inner nodes
+        ks_ = np.exp(np.linspace(np.log(0.05), np.log(50.0), 40))
+        Ts_ = np.exp(tm.EH_NoBAO(Planck15).lnt(np.log(ks_)))
+        fname2 = os.path.join(tmpdir, "table_short.dat")
+        np.savetxt(fname2, np.column_stack([ks_, Ts_]))
+        for name, mk2 in {"FromArray": lambda: tm.FromArray(Planck15, k=ks_.copy(), T=Ts_.copy()), "FromFile": lambda: tm.FromFile(Planck15, fname=fname2)}.items():
+            req = np.sort(np.concatenate([np.log(np.array([1e-3, 5e-3, 2e-2])), np.log(ks_[1:30])]))
+            got_ = mk2().lnt(req)
+            ntab += 1
+            at_ = got_[3:]
+            if not np.allclose(at_, np.log(Ts_[1:30]), rtol=1e-8, atol=1e-10):
+                viol(f"{name}/nodes/short-table", f"{name}: with a request reaching below a table that starts at T={Ts_[0]:.3f}, the inner nodes are not reproduced (max dev of ln T {np.max(np.abs(at_ - np.log(Ts_[1:30]))):.3g})",
+                     {"model": name, "table_k_min": 0.05})
+            lo_, hi_ = float(np.min(np.log(Ts_[:3]))) - 0.5, float(np.log(Ts_[0])) + 0.05
+            if not (np.all(np.isfinite(got_[:3])) and np.all((got_[:3] > lo_) & (got_[:3] < hi_)) and np.max(np.abs(np.diff(got_[:5]))) < 1.0):
+                viol(f"{name}/extension/short-table", f"{name}: extension below a table starting at ln T = {np.log(Ts_[0]):.4f} is not finite, continuous and anchored at the first tabulated value: ln T = {got_[:3].tolist()}")
         # framework level: update() to a narrower grid vs fresh
         t1 = Transfer(transfer_model="FromArray", transfer_params={"k": kt, "T": Tt}, lnk_min=-12.0, lnk_max=6.0, dlnk=0.25)
         t1._unnormalised_lnT
